@@ -7,6 +7,9 @@ Theorems about the writer state machine (`Writer/Model.lean`, `Writer/Api.lean`)
  * `Free` is safe in every state, also after an error and after `Free` (`free_safe`);
  * `Reset` returns the writer to the clean state (`reset_clean`);
  * a handle whose message ended reports the closed error for every operation (`closed_handle`).
+ * `sticky_program` / `err_persists`: for EVERY program without Reset, once the writer has failed the
+   error is still in place after any further calls (live and dead handles, Copy, Free, failing write
+   functions, begins, queries): with `sticky_*` every later write and the final Build report it.
  * `no_panic`: for EVERY program over the call alphabet (values, fields, elements, nested begins, ends
    and builds through live and dead handles, Len/HasField, Err, Reset, Free, ill-typed calls; every
    order, every length) no call reaches a panic outcome of the model (nil state, slice bounds, table
@@ -152,5 +155,148 @@ from a real message (reports `closed`) -/
 example : (run [.msg, .copy 0 [255, 3, 1], .end_ 0, .copy 0 (encMsg [(1, encBool true)])]).2 =
     [.ok, .ok, .ok, .err .closed] := by
   decide
+
+/-! ### the first error stays, for whole programs -/
+
+/-- a call other than Reset -/
+def _root_.SpecVerif.Writer.Call.notReset : Call → Bool
+  | .reset => false
+  | _ => true
+
+theorem onHandle_err (s : Sess) (dead : Bool) (op : W → W × Out) (e : WErr) (h : s.w.err = some e)
+    (hop : ∀ w, w.err = some e → (op w).1.err = some e) : (onHandle s dead op).1.w.err = some e := by
+  unfold onHandle
+  cases dead
+  · simp only [Bool.false_eq_true, ↓reduceIte]; exact hop s.w h
+  · simp only [↓reduceIte]; exact h
+
+/-- once the writer has failed with `e`, every call except Reset leaves that error in place -/
+theorem err_persists (s : Sess) (idx : Nat) (c : Call) (e : WErr) (h : s.w.err = some e)
+    (hc : c.notReset = true) : (step s idx c).1.w.err = some e := by
+  have hwv : ∀ w idx enc, w.err = some e → (writeValue w idx enc).1.err = some e := by
+    intro w idx enc hw; rw [sticky_write w e hw]; exact hw
+  have hend : ∀ w idx, w.err = some e → (end_ w idx).1.err = some e := by
+    intro w idx hw; rw [sticky_end w e hw]; exact hw
+  cases c with
+  | msg => simp only [step, addHandle, (sticky_begin s.w e h idx 0).2.1]; exact h
+  | list => simp only [step, addHandle, (sticky_begin s.w e h idx 0).1]; exact h
+  | v enc => simp only [step]; exact hwv _ _ _ h
+  | vbuild =>
+    simp only [step]
+    rw [sticky_end s.w e h]
+    simp [recordBuilt, h]
+  | f hh tag enc =>
+    simp only [step]
+    split
+    · exact h
+    · apply onHandle_err s _ _ e h
+      intro w hw; rw [sticky_write w e hw]; exact hw
+  | fmsg hh tag =>
+    simp only [step]
+    split
+    · exact h
+    · split
+      · exact h
+      · simp only [addHandle, (sticky_begin s.w e h idx tag).2.2.2, (sticky_begin s.w e h idx tag).2.1]; exact h
+  | flist hh tag =>
+    simp only [step]
+    split
+    · exact h
+    · split
+      · exact h
+      · simp only [addHandle, (sticky_begin s.w e h idx tag).2.2.2, (sticky_begin s.w e h idx tag).1]; exact h
+  | has hh tag => simp only [step]; split <;> exact h
+  | copy hh src =>
+    simp only [step]
+    split
+    · exact h
+    · apply onHandle_err s _ _ e h
+      intro w hw
+      -- every operation of the copy loop returns the stored error without touching the writer
+      unfold copyMsg
+      split
+      · rename_i src _
+        have : ∀ k i, (copyLoop src idx k i w).1.err = some e := by
+          intro k
+          induction k with
+          | zero => intro i; unfold copyLoop; exact hw
+          | succ k ih =>
+            intro i
+            unfold copyLoop
+            split
+            · exact hw
+            · exact hw
+            · exact ih (i + 1)
+            · rw [(sticky_queries w e hw _).1]
+              simp only
+              split
+              · rw [sticky_fieldAny w e hw]; exact hw
+              · exact hw
+        exact this _ _
+      · exact hw
+  | e hh enc =>
+    simp only [step]
+    split
+    · exact h
+    · apply onHandle_err s _ _ e h
+      intro w hw; rw [sticky_write w e hw]; exact hw
+  | emsg hh =>
+    simp only [step]
+    split
+    · exact h
+    · split
+      · exact h
+      · simp only [addHandle, (sticky_begin s.w e h idx 0).2.2.1, (sticky_begin s.w e h idx 0).2.1]; exact h
+  | elist hh =>
+    simp only [step]
+    split
+    · exact h
+    · split
+      · exact h
+      · simp only [addHandle, (sticky_begin s.w e h idx 0).2.2.1, (sticky_begin s.w e h idx 0).1]; exact h
+  | len hh => simp only [step]; split <;> exact h
+  | end_ hh =>
+    simp only [step]
+    split
+    · exact h
+    · rename_i hd _
+      have := onHandle_err s hd.dead (fun w => end_ w idx) e h (fun w hw => hend w idx hw)
+      split <;> simpa [killHandle] using this
+  | build hh =>
+    simp only [step]
+    split
+    · exact h
+    · rename_i hd _
+      have := onHandle_err s hd.dead (fun w => end_ w idx) e h (fun w hw => hend w idx hw)
+      rw [recordBuilt_w]
+      split <;> simpa [killHandle] using this
+  | fwfail hh =>
+    simp only [step]
+    split
+    · exact h
+    · apply onHandle_err s _ _ e h
+      intro w hw; unfold writeFail; simp only [hw]
+  | ewfail hh =>
+    simp only [step]
+    split
+    · exact h
+    · apply onHandle_err s _ _ e h
+      intro w hw; unfold writeFail; simp only [hw]
+  | err => simp only [step]; exact h
+  | reset => simp [Call.notReset] at hc
+  | free =>
+    simp only [step, free, close, h]
+    split <;> simp [h]
+  | bad => exact h
+
+/-- whole programs: after the first failure no sequence of calls without Reset clears the error,
+so the final Build (and every write in between) reports it (`sticky_*`) -/
+theorem sticky_program (s : Sess) (idx : Nat) (cs : List Call) (e : WErr) (h : s.w.err = some e)
+    (hc : ∀ c ∈ cs, c.notReset = true) : (runFrom s idx cs).1.w.err = some e := by
+  induction cs generalizing s idx with
+  | nil => simpa [runFrom] using h
+  | cons c cs ih =>
+    simp only [runFrom]
+    exact ih _ _ (err_persists s idx c e h (hc c (by simp))) (fun x hx => hc x (by simp [hx]))
 
 end SpecVerif.C12
